@@ -80,6 +80,43 @@ theorem keyH_label (d : Decor) (t : TableSpec) (hm : t.outputs.length = 1) :
   have h2 : ¬ (t.inputs.length + 1 ≤ t.inputs.length) := by omega
   simp [h2, hm]
 
+/-- the key of the component names lane at an output position of a table with several
+outputs is the component name -/
+theorem keyH_comp (d : Decor) (t : TableSpec) (hm : 1 < t.outputs.length) {j : Nat}
+    (hj : j < t.outputs.length) :
+    keyH d t (b2n t.hasLabelRow) (t.inputs.length + 1 + j) = .comp j := by
+  have h1 : ¬ (t.inputs.length + 1 + j = 0) := by omega
+  have h2 : ¬ (t.inputs.length + 1 + j ≤ t.inputs.length) := by omega
+  have h3 : t.inputs.length + 1 + j ≤ t.inputs.length + t.outputs.length := by omega
+  have h4 : t.inputs.length + 1 + j - 1 - t.inputs.length = j := by omega
+  have h5 : (t.outputs.length == 1) = false := by simp; omega
+  unfold keyH TableSpec.headerRows b2n
+  cases hL : t.hasLabelRow <;> cases hV : t.hasValues <;> simp [h2, h3, h5]
+
+/-- a component name cell is a cell of the sheet -/
+theorem comp_mem_keys (d : Decor) (t : TableSpec) (hm : 1 < t.outputs.length) {j : Nat}
+    (hj : j < t.outputs.length) : Key.comp j ∈ (sheetOf d ⟨[], [], 0⟩ t).keysInOrder := by
+  have hH := headerRows_pos t
+  have hL : b2n t.hasLabelRow < t.headerRows := by
+    unfold TableSpec.headerRows b2n; cases t.hasLabelRow <;> cases t.hasValues <;> simp
+  cases ho : t.orientation with
+  | ruleAsRow =>
+    have := mem_keysInOrder (s := sheetOf d ⟨[], [], 0⟩ t) (r := b2n t.hasLabelRow)
+      (c := t.inputs.length + 1 + j) (by simp [sheetOf, ho]; omega) (by simp [sheetOf, ho]; omega)
+    simpa [sheetOf, ho, keyH_comp d t hm hj] using this
+  | ruleAsColumn =>
+    have := mem_keysInOrder (s := sheetOf d ⟨[], [], 0⟩ t) (r := t.inputs.length + j)
+      (c := b2n t.hasLabelRow) (by simp [sheetOf, ho]; omega) (by simp [sheetOf, ho]; omega)
+    have hne : ¬ (t.inputs.length + j = t.inputs.length + t.outputs.length + t.annotations.length) := by omega
+    have e : t.inputs.length + j + 1 = t.inputs.length + 1 + j := by omega
+    simpa [sheetOf, ho, hne, e, keyH_comp d t hm hj] using this
+  | crossTable =>
+    have := mem_keysInOrder (s := sheetOf d ⟨[], [], 0⟩ t) (r := t.inputs.length + j)
+      (c := b2n t.hasLabelRow) (by simp [sheetOf, ho]; omega) (by simp [sheetOf, ho]; omega)
+    have hne : ¬ (t.inputs.length + j = t.inputs.length + t.outputs.length + t.annotations.length) := by omega
+    have e : t.inputs.length + j + 1 = t.inputs.length + 1 + j := by omega
+    simpa [sheetOf, ho, hne, e, keyH_comp d t hm hj] using this
+
 theorem idsOfSheet_ok (d : Decor) (t : TableSpec) (hw : t.Wf) :
     (idsOfSheet d t).Ok t.inputs.length t.outputs.length := by
   have hn := hw.inputs_pos
@@ -125,6 +162,14 @@ theorem idsOfSheet_ok (d : Decor) (t : TableSpec) (hw : t.Wf) :
         have hne : ¬ (t.inputs.length = t.inputs.length + t.outputs.length + t.annotations.length) := by omega
         simpa [sheetOf, ho, hne, keyH_label d t hm1] using this
     have := idxOf_ne hmem (b := Key.outVal 0) (by intro h; cases h)
+    simp only [idsOfSheet]
+    omega
+  · intro hm2
+    have := idxOf_ne (comp_mem_keys d t hm2 (j := 0) (by omega)) (b := Key.comp 1) (by intro h; cases h)
+    simp only [idsOfSheet]
+    omega
+  · intro hm2 j hj
+    have := idxOf_ne (comp_mem_keys d t hm2 hj) (b := Key.outVal j) (by intro h; cases h)
     simp only [idsOfSheet]
     omega
 
